@@ -19,6 +19,12 @@ def programs(tier, rnd: random.Random):
         "{ int32_t a = RsV; { a = a + 1; { a = a * 2; } } ; {} RdV = a; }",
         "{ RdV = RsV; mem_store_u32(EA, RtV); RdV = mem_load_u32(EA); }",
     ]
+    # controlling expressions that are conversions: the condition is the CONVERTED value (a narrowing cast can make a non-zero value zero)
+    for ty, sh in (("uint8_t", 8), ("int8_t", 8), ("uint16_t", 16), ("int16_t", 16), ("uint32_t", 32), ("int32_t", 32)):
+        src = "RssV" if sh == 32 else "RsV"
+        progs += [f"{{ if (({ty})({src} << {sh})) {{ RdV = 1; }} else {{ RdV = 2; }} }}", f"{{ if (({ty}){src}) {{ RdV = 1; }} else {{ RdV = 2; }} }}",
+                  f"{{ RdV = 0; for (i = 0; ({ty})(i << {min(sh, 16)}); i++) {{ RdV = 7; }} }}",
+                  f"{{ RdV = (({ty})({src} << {sh})) ? 1 : 2; }}", f"{{ RdV = !(({ty})({src} << {sh})); }}"]
     return progs
 
 
